@@ -91,6 +91,29 @@ template <class V> inline std::string show_vector(const V& v)
     return o.str();
 }
 
+// the iterator range handed to the library: `sel=` lists the (not necessarily identity, not necessarily contiguous)
+// sample indices into the matrices backing the callbacks; absent = 0..N-1
+inline std::vector<IndexType> parse_range(std::map<std::string, std::string>& f, IndexType N)
+{
+    std::vector<IndexType> idx;
+    if (f.count("sel"))
+        for (auto v : vh::parse_ints(f["sel"]))
+            idx.push_back((IndexType)v);
+    else
+        for (IndexType i = 0; i < N; ++i)
+            idx.push_back(i);
+    return idx;
+}
+// M(sel, sel): the callback values of the selected samples by POSITION in the range (used by the mirrored kernels only)
+inline DenseMatrix restrict_square(const DenseMatrix& M, const std::vector<IndexType>& sel)
+{
+    DenseMatrix R(sel.size(), sel.size());
+    for (size_t a = 0; a < sel.size(); ++a)
+        for (size_t b = 0; b < sel.size(); ++b)
+            R(a, b) = M(sel[a], sel[b]);
+    return R;
+}
+
 // callbacks backed by explicit matrices: callback(i, j) = M(i, j), argument order preserved
 struct matrix_kernel_callback
 {
